@@ -31,6 +31,10 @@ pub enum Context {
     Coproc,
     /// `coproc M` with a bare simple command as the body
     CoprocSimple,
+    /// `M | simcat >/dev/null` with a bare simple command as the stage
+    PipeStageSimple,
+    /// `simseq 2 | M | simcat >/dev/null` with a bare simple command as the middle stage
+    PipeStageSimpleMiddle,
 }
 
 #[derive(Clone, Debug, Serialize, Deserialize)]
@@ -216,6 +220,14 @@ pub const MUTATORS: &[&str] = &[
     "trap 'probe usr1b' USR1",
     "trap -- - EXIT USR1",
     "enable -n cd; enable -n pushd",
+    ". ./missing_c12.sh",
+    ": ${UNSET_C12?boom}",
+    "cd /nonexistent_c12",
+    "v5=again",
+    "echo $((1/0))",
+    "nosuchcmd_c12",
+    "shift 9",
+    "readonly v1; v1=again",
 ];
 
 pub const PROCESS_WIDE: &[&str] = &["umask 077", "ulimit -S -n 768"];
@@ -243,6 +255,17 @@ fn ctx_text(ctx: &Context, body: &str, idx: usize) -> (String, String) {
         // the reader drains its input first, so that the parent's own write never meets EPIPE
         Context::ProcSubstOut => (String::new(), format!("simseq 1 > >( simcat >/dev/null; {body} )")),
         Context::Coproc => (String::new(), format!("coproc {{ :; {body}; }}")),
+        Context::PipeStageSimple | Context::PipeStageSimpleMiddle => {
+            // only the first mutator; `;`-joined text would end the pipeline
+            let first = body.split("; ").next().unwrap_or(":");
+            let ok = first.matches('\'').count() % 2 == 0 && !first.contains("()") && !first.starts_with("function ");
+            let stage = if ok { first } else { ":" };
+            if *ctx == Context::PipeStageSimple {
+                (String::new(), format!("{stage} | simcat >/dev/null"))
+            } else {
+                (String::new(), format!("simseq 2 | {stage} | simcat >/dev/null"))
+            }
+        }
         Context::CoprocSimple => {
             // only the first mutator, and only if it is a bare simple command
             let first = body.split("; ").next().unwrap_or(":");
@@ -319,6 +342,8 @@ const CONTEXTS: &[Context] = &[
     Context::ProcSubstOut,
     Context::Coproc,
     Context::CoprocSimple,
+    Context::PipeStageSimple,
+    Context::PipeStageSimpleMiddle,
 ];
 
 fn gen_cfg(rng: &mut Rng) -> SimConfig {
